@@ -639,3 +639,5 @@ add("s-furthest-points-limit-in-a-local", S, ["C04", "C18"], "dfols/controller.p
     "        furthest_points = np.argsort(all_sq_dist)[::-1]  # indices from furthest to closest (last is kopt)\n        num_moves = min(num_pts_to_move, len(furthest_points) - 1)\n\n        for i in range(num_moves):\n            # Determine which point to update (knew)\n            knew = furthest_points[i]\n\n            # Using adelt")
 add("s-model-increase-test-in-a-local", S, ["C04"], "dfols/controller.py", "        if pred_reduction < 0.0:\n            if len(self.model.projections) > 1:",
     "        model_increase = pred_reduction < 0.0\n        if model_increase:\n            if len(self.model.projections) > 1:")
+add("s-max-npt-read-into-a-local", S, ["C18", "C07"], "dfols/solver.py", "            npt += params(\"restarts.increase_npt_amt\")\n            npt = min(npt, params(\"restarts.max_npt\"))\n",
+    "            max_npt = params(\"restarts.max_npt\")\n            npt += params(\"restarts.increase_npt_amt\")\n            npt = min(npt, max_npt)\n")
